@@ -31,6 +31,10 @@ CHECKS = {
             "Lean 4 proof of soundness of a re-implemented toposort (layers: each key once, dependencies in strictly earlier layers, for every in-layer order) and of the validation/digest loop + differential correspondence with substituted entry points + independent oracle",
             "Order respects every before/after constraint between installed plugins (for any order inside a toposort layer), absent names never enter the table, unknown sections fail before any digest, required-missing fails, otherwise each present section is digested once in order and non-None results kept: Lean theorems for any number of plugins; tied to core/config.py + mapping.py by generated plugin sets and configurations.",
             "Trusted: Lean kernel + standard axioms; model incl. the re-implemented toposort (compared layer by layer with toposort 1.10 on every run); entrypoints API substituted by generated objects."),
+    "C04": ("§6 C04",
+            "Lean 4 induction over expression trees of >> (all groupings at once, nested PartialBinds), closed-form model of Signature.bind_partial with both directions of 'rejected iff can never bind', currying laws + differential correspondence on exec-generated classes, shipped classes and chains + Python's own call binding as independent oracle",
+            "chain_assoc (every parenthesisation of a chain of any length with any of the three tail forms evaluates to the hand-nested object, each element constructed once, last to first, with its target and its own arguments), bindable_accepted / accepted_bindable (the eager check rejects exactly the argument lists no completion of which is a valid call), target/excess/duplicate rejection and curry_split are Lean theorems; the model is tied to _partial.py on every run by generated signatures, the shipped classes' real signatures (regenerated with inspect) and generated chains.",
+            "Trusted: Lean kernel + standard axioms; model (sampling correspondence); inspect.Signature (closed form compared through Partial); positional-only parameters and the reserved names self/ctor/__leaf__ are outside the model."),
 }
 
 PENDING_REASON = "check not built yet in this session (planned: Lean model + proof + correspondence, see DESIGN.md work order); not claimed until its check exists"
